@@ -68,6 +68,7 @@ type pathCtx struct {
 	model     model
 	memo      map[int32]uint64
 	pc        []*term
+	pcSet     map[int32]bool // ids of the terms in pc
 	inputs    []inputRec
 	nameCount map[string]int
 	steps     int64
@@ -138,6 +139,10 @@ func (p *pathCtx) fresh(name string, w uint8) *term {
 
 func (p *pathCtx) addPC(t *term) {
 	p.pc = append(p.pc, t)
+	if p.pcSet == nil {
+		p.pcSet = make(map[int32]bool)
+	}
+	p.pcSet[t.id] = true
 	p.sol.assert(t)
 }
 
@@ -198,9 +203,17 @@ func (p *pathCtx) branchV(c *term, val uint64) bool {
 		p.abort(pathLimit, "decision limit %d reached (unwinding bound)", p.exp.cfg.MaxDecisions)
 	}
 	mv := p.eval(c) != 0
-	other := c
+	other, taken := c, p.tc.not(c)
 	if mv {
-		other = p.tc.not(c)
+		other, taken = taken, c
+	}
+	if p.pcSet[taken.id] {
+		// the side taken by the current model is literally one of the path
+		// constraints (terms are hash-consed), so the other side is
+		// infeasible: no query, no new constraint.
+		p.decisions = append(p.decisions, dec{mv, val})
+		p.pos++
+		return mv
 	}
 	if sat, m := p.query(other); sat {
 		np := make([]dec, len(p.decisions)+1)
